@@ -185,8 +185,9 @@ def finish(ctx, level='model_checking', rule='', extra=None, exhaustive=False):
         cov.update(extra)
     ev = {'property_id': ctx.pid, 'tier': ctx.tier, 'seed': ctx.seed, 'level': level, 'coverage': cov,
           'assumptions': ctx.assumptions, 'wall_s': round(wall, 2), 'violations': len(ctx.violations)}
-    os.makedirs(EVIDENCE, exist_ok=True)
-    with open(os.path.join(EVIDENCE, f'{ctx.pid}.json'), 'w') as fh:
+    evdir = EVIDENCE if not ctx.pid.startswith('X') else os.path.join(EVIDENCE, 'extra')     # X..: coverage beyond the listed properties
+    os.makedirs(evdir, exist_ok=True)
+    with open(os.path.join(evdir, f'{ctx.pid}.json'), 'w') as fh:
         json.dump(ev, fh, indent=1, default=str)
     for fid, cnt in sorted(ctx.known_hits.items()):
         print(f'KNOWN-FINDING: property={ctx.pid} {ctx.notes.get("known_" + fid, fid)} [{fid}, {cnt} traces]')
